@@ -1107,6 +1107,45 @@ def globalstate_pass(run: Run, pkg: Package, funcs: List[FunctionInfo]) -> int:
 
 
 # --------------------------------------------------------------------------------------------------------------------
+def binside_pass(run: Run, pkg: Package, funcs: List[FunctionInfo]) -> int:
+    """R-BINSIDE: a histogram re-implemented with `np.searchsorted(edges, x) - 1` (or `np.digitize`) and `np.bincount` / `np.add.at`
+    follows np.histogram's convention - bins [e_k, e_k+1), the value ON an edge belongs to the upper bin - only with
+    side="right" (digitize: right=False).  With side="left" (numpy's default) a value exactly on an edge is counted one bin lower
+    and a value equal to the first edge gets index -1.  Decided from numpy's documented contract; matched only where the index
+    feeds a counting call in the same function."""
+    n = 0
+    for fi in funcs:
+        src_calls = [c for c in ast.walk(fi.node) if isinstance(c, ast.Call) and isinstance(c.func, ast.Attribute) and c.func.attr in ("searchsorted", "digitize")]
+        if not src_calls:
+            continue
+        counting = [c for c in ast.walk(fi.node) if isinstance(c, ast.Call) and isinstance(c.func, ast.Attribute) and (c.func.attr == "bincount" or (c.func.attr == "at" and "add" in ast.unparse(c.func)))]
+        if not counting:
+            continue
+        par = parents_map(fi.node)
+        for c in src_calls:
+            n += 1
+            kws = {k.arg: k.value for k in c.keywords}
+            if c.func.attr == "searchsorted":
+                side = kws.get("side", c.args[2] if len(c.args) > 2 else None)
+                left = side is None or (isinstance(side, ast.Constant) and side.value == "left")
+                minus1 = isinstance(par.get(c), ast.BinOp) and isinstance(par[c].op, ast.Sub) and isinstance(par[c].right, ast.Constant) and par[c].right.value == 1
+                bad = left and minus1
+                how = 'side="left"' if side is not None else "the default side (left)"
+            else:
+                right = kws.get("right", c.args[2] if len(c.args) > 2 else None)
+                bad = isinstance(right, ast.Constant) and right.value is True
+                how = "right=True"
+            if not bad:
+                continue
+            run.ob("R-BINSIDE", short(fi.qual), f"{c.func.attr}@{norm_stmt(_stmt_of(c, par))[:60]}", False,
+                   "a pair on a bin edge is counted in the bin that starts at that edge (the convention of np.histogram, which the tables are defined with)",
+                   f"{ast.unparse(c)[:90]} with {how} feeds {ast.unparse(counting[0].func)}: bins become (e_k, e_k+1]",
+                   witness="a distance exactly equal to an inner bin edge (lattice configurations, constructed pairs) is counted one bin lower than np.histogram counts it; "
+                           "a value equal to the first edge gets index -1", loc=fi.loc(c), sound=True)
+    return n
+
+
+# --------------------------------------------------------------------------------------------------------------------
 def savepath_pass(run: Run, pkg: Package, funcs: List[FunctionInfo]) -> int:
     """R-SAVE-PATH: a routine that writes its result to a file named by one of its parameters does so on every path that returns
     a result.  A `return <value>` that precedes the first save site (an early exit / fast path) hands back a value without
@@ -1380,6 +1419,7 @@ def state_pass(run: Run, pkg: Package, everything: bool = False, mask_forward_on
             "label_count_loops": labelcount_pass(run, pkg, funcs),
             "reduceat_calls": reduceat_pass(run, pkg, funcs),
             "block_loops": blocktail_pass(run, pkg, funcs),
+            "rebinned_histograms": binside_pass(run, pkg, funcs),
             "stored_closures": latebind_pass(run, pkg, funcs, modules=[m for m in pkg.modules.values() if anchor_files and m.relpath in anchor_files]),
             "indexed_generators": genskip_pass(run, pkg, funcs),
         })
